@@ -379,3 +379,11 @@ func vfFlatten(f *cptvframe.Frame) []uint16 {
 	}
 	return out
 }
+
+// vfScratchDir is where the cases create their output directories.
+func vfScratchDir() string {
+	if d := os.Getenv("VERIF_SCRATCH"); d != "" {
+		return d
+	}
+	return os.TempDir()
+}
